@@ -31,7 +31,8 @@ META = {
         'against), or de-duplicates afterwards; (shared) the value-extraction '
         'and operator code of ranges.py never writes into a module-level '
         'object or a memoised result, so the values seen through one reference '
-        'cannot leak into another.'),
+        'cannot leak into another.'
+        ' (allvalues) a reference operator hands on every value block of its operands, never a selection by area name.'),
     'not_decided': (
         'Correctness of split/merge/simplify on all rectangle pairs (the '
         'known loss of contained areas in simplify is value-level) and value '
